@@ -4,16 +4,26 @@ import json, subprocess
 claimed = {
  "C01": ("exploration", "7/C01", "seeded search over sequential histories with per-step comparison of read/contains against an executable reference model; deterministic simulation of pearl's tasks, blocking pool, clocks and disk"),
  "C02": ("exploration", "7/C02", "same simulator; per-step comparison of read_all*, read_with, delete count/marker placement and duplicate suppression against the reference model"),
+ "C03": ("fault_enumeration", "7/C03", "clean close + reopen inside seeded histories with index files removed / truncated (random lengths and a per-history sweep over truncation lengths) / cut to the header / written-flag cleared / replaced by an older copy; model equality, counters and id monotonicity after every reopen"),
  "C04": ("exploration", "7/C04", "same simulator; lifecycle/maintenance calls interleaved with data operations while simulated index dumps complete at arbitrary moments; model equality before and after quiescence"),
+ "C05": ("fault_enumeration", "7/C05", "value lengths across every write-path threshold in both I/O modes, then one seeded burst of <= 32 bits flipped in a stored record (data / meta / record header / blob header) under the open storage or between sessions; altered bytes must never be returned, untouched blobs never quarantined"),
+ "C06": ("fault_enumeration", "7/C06", "three-session simulated runs cut by a process kill (partial write lengths) or a power loss (un-synced suffix cut / torn per file, rebuilt from the sync points of the I/O tap); random crash points plus a sweep over every mutating I/O event of sampled histories; recovery, recovery tool on rejected blobs, writes after recovery and further restarts checked against the model"),
  "C07": ("exploration", "7/C07", "I/O tap monitors on every simulated run: append-only offsets, no truncate/re-create of blobs, shadow-copy equality at session boundaries, no id reuse, no writes attributed to queries"),
  "C10": ("exploration", "7/C10", "same simulator with swarm bloom/group configurations; no-false-negative oracle after every step and on-file == in-memory probe across offload at quiescent points"),
+ "C11": ("fault_enumeration", "7/C11", "injected ENOSPC/EIO/short writes at the n-th create/open/write/sync on blob or index files (random, and a sweep over every mutating I/O event of sampled histories); acknowledged records stay readable in session, after 60 simulated seconds and after restart; errors only while a fault fires; rotation probe afterwards"),
  "C12": ("exploration", "7/C12", "ordered I/O tap (write/sync events with lengths) checked online for header-sync-before-record, blob-sync-before-index-complete, clean-after-fsync/close and the dirty bound at quiescent points"),
+ "C14": ("fault_enumeration", "7/C14", "operation futures polled k times and dropped (random, and a sweep over operation x k), detached simulated jobs racing with the next operations; all-or-nothing for the cancelled operation, every other acknowledged record readable, later operations succeed, no blob rejected at the restart"),
  "C15": ("exploration", "7/C15", "same simulator; every counter compared at quiescent points with the physical record list derived from the tapped writes and the directory listing"),
 }
 notes = {
  "C01": "trusted: the harness's own record parser and the 160-line reference model (unit-tested); blob attribution is observed from the I/O tap, never predicted",
  "C02": "as C01",
  "C04": "as C01; which blob is active is observed through has_active_blob/records_count_detailed at quiescent points",
+ "C03": "as C01; index damage is applied by the harness between close and init, the truncation sweep is capped at 40 lengths per history in the quick tier and covers every byte length in the thorough tier's restart-sweep-full runs",
+ "C05": "as C01; CRC32C detects every burst of <= 32 bits, so 'altered bytes never served' is an exact oracle; flips in header/meta classes only assert that no altered data bytes are returned",
+ "C06": "crash model stated in the evidence assumptions (kill = partial write at one event, power loss = synced prefix + cut/torn un-synced tail per file, durable directory entries); real SIGKILL of a child process is not used because its timing is not replayable",
+ "C11": "faults are decided by the simulator at the tapped std::fs calls; directory operations during init are not faulted",
+ "C14": "the dropped future's blocking closures are simulated jobs that still run (same contract as spawn_blocking); half of the runs let them finish before the next operation, half let the next operation race with them",
  "C07": "trusted: the tap sees every write pearl issues through crate::io::File; directory operations (rename into corrupted/, index removal) are observed by snapshots at session boundaries",
  "C10": "as C01; filters are only exercised through the storage (the bare Bloom/RangeFilter API is a pure function)",
  "C12": "trusted: the tap's notion of synced length (content length at the last successful sync_all of that file)",
@@ -23,7 +33,7 @@ not_applicable = [
  {"property_id": "C09", "reason": "pure function of a header multiset (build index file, compare lookups with the in-memory index): no schedule, clock, fault or interleaving to simulate; deciding it is input enumeration, a different technique. Storage-visible consequences are exercised by C01/C03/C04 whenever a blob is dumped (DESIGN.md section 8)"},
  {"property_id": "C17", "reason": "differential check against files produced by the pinned release: needs a committed golden corpus and has no schedule, fault or time in it; golden-file replay is a different technique (DESIGN.md section 8)"},
 ]
-pending = ["C03","C05","C06","C08","C11","C13","C14","C16"]
+pending = ["C08","C13","C16"]
 hooks = subprocess.run(["git","-C","/repo","log","--format=%H %s"],capture_output=True,text=True).stdout.strip().split("\n")
 hook_commits=[l.split()[0] for l in hooks if "verif hook" in l]
 checks=[]
